@@ -492,7 +492,9 @@ impl GroupAggregator {
                 *count += 1;
 
                 let calculate = |sum: f64, sum_square: f64, n: f64| {
+                    // Rounding can make the difference of the two sums slightly negative
                     let variance = (sum_square - (sum * sum) / n) / n;
+                    let variance = if variance < 0.0 { 0.0 } else { variance };
                     if *is_variance {
                         variance
                     } else {
